@@ -1545,6 +1545,14 @@ class CondGen(ExprGen):
             if not lits:
                 base = INT if (INT in ms or BOOL in ms) else STR
                 lits = [lit(1), lit(0)] if base == INT else [lit("a"), lit("")]
+            if OBJ in ms and any(isinstance(x[1], (bool, int)) and not isinstance(x[1], tuple) for x in lits):
+                # fenced off: for a top type mypy narrows `x == True` / `x == 1` to the literal's own type although
+                # values of the other numeric types compare equal (1 == True, 1.0 == 1); known finding with a witness
+                # replay, its symptoms (else branches, match rests, merges) have no bounded set of signatures
+                self.lab("excluded:numeric-literal-equality-on-object")
+                lits = [x for x in lits if isinstance(x[1], tuple) or not isinstance(x[1], (bool, int))]
+                if not lits:
+                    return None
             if o == "in":
                 pick_ = r.sample(lits, min(len(lits), 2))
                 return "%s in (%s,)" % (n, ", ".join(lit_code(x) for x in pick_)), cur, cur, "in-literals"
@@ -2322,6 +2330,9 @@ class FullGen(StmtGen):
                 form = "match-class-sub"
             elif mk == "none":
                 pat, yes, no, form = "None", NONE, union([x for x in members(remaining) if x != NONE]), "match-none"
+            elif mk == "lit" and OBJ in members(remaining) and isinstance(m[1], (bool, int)) and not isinstance(m[1], tuple):
+                self.lab("excluded:numeric-literal-equality-on-object")
+                continue
             elif mk == "lit":
                 pat, yes, no, form = lit_code(m), union([m] + [x for x in members(remaining) if x[0] not in ("lit", "none", "enum") or (x[0] == "enum" and isinstance(m[1], tuple))]), union([x for x in members(remaining) if x != m]), "match-literal"
                 if isinstance(m[1], tuple):
